@@ -130,6 +130,8 @@ def build_real_dylib(repo, target_dir, toolchain=None):
 
 PANIC_RE = re.compile(r"^error: (custom attribute|proc-macro derive|proc macro) panicked", re.M)
 NOMSG_RE = re.compile(r"^error: (`?compile_error!`? takes 1 argument|\s*$)", re.M)
+# the one parser verdict of the real host that cannot be confused with a message of derive-ex's own
+UNPARSABLE_RE = re.compile(r"^error: proc-macro derive produced unparsable tokens", re.M)
 LOC_RE = re.compile(r"^\s*--> ([^:\n]+):(\d+):\d+", re.M)
 
 
@@ -238,8 +240,29 @@ def engine_r_t(kw, n_inputs, chunks, pool_stride=1):
                             "replay": p, "reproducible": True, "input": disp,
                             "detail": "rustc does not finish expanding this module"})
             continue
-        for kind, rx in (("panic", PANIC_RE), ("nomsg", NOMSG_RE)):
+        for kind, rx in (("panic", PANIC_RE), ("nomsg", NOMSG_RE), ("illformed-rustc", UNPARSABLE_RE)):
             for m in rx.finditer(err):
+                if kind == "illformed-rustc":
+                    # rustc prints its parser's complaint as the diagnostic just before this one
+                    prev = err.rfind("\nerror", 0, m.start())
+                    why = err[prev + 1:m.start()].splitlines()[0] if prev >= 0 else (err[:m.start()].splitlines() or ["?"])[0]
+                    loc = LOC_RE.search(err, m.end())
+                    mod = _module_at(src_lines, int(loc.group(2))) if loc else None
+                    ent = index.get(mod)
+                    if not ent:
+                        raise HarnessError(f"engine R: cannot attribute diagnostic to a module:\n{err[m.start():m.start() + 400]}")
+                    req = ent["req"]
+                    disp = f"#[derive(Ex)] {req['item']}"
+                    cls = "unparsable derive output in the real host (rustc + shipped dylib): " + re.sub(r"`[^`]*`", "`_`", why)
+                    p = os.path.join(kw["replays"], "C16-real-unparsable-" + hashlib.sha1(disp.encode()).hexdigest()[:12] + ".json")
+                    json.dump({"property": "C16", "class": cls, "kind": kind, "engine": "R", "detail": why, "root_seed": seed,
+                               "session_idx": 0, "original_step": 0, "original_steps_in_session": 1,
+                               "minimisation_trials": 0, "reproducible": True, "input": disp,
+                               "plan": {"reqs": [req], "steps": [{"req": 0, "thread": "main", "policy": {"kind": "keep"}}]}},
+                              open(p, "w"), indent=1)
+                    classes.append({"class": cls, "kind": kind, "occurrences": 1, "replay": p, "reproducible": True,
+                                    "input": disp, "detail": why + " | error: proc-macro derive produced unparsable tokens"})
+                    continue
                 loc = LOC_RE.search(err, m.end())
                 mod = _module_at(src_lines, int(loc.group(2))) if loc else None
                 ent = index.get(mod)
@@ -331,7 +354,7 @@ def replay_real(kw, path):
         hit = err is None
         print("rustc did not finish within 60 s" if hit else "rustc finished")
     else:
-        rx = PANIC_RE if rf["kind"] == "panic" else NOMSG_RE
+        rx = {"panic": PANIC_RE, "illformed-rustc": UNPARSABLE_RE}.get(rf["kind"], NOMSG_RE)
         hit = rx.search(err or "")
         print((err or "")[:3000])
     shutil.rmtree(d, ignore_errors=True)
@@ -646,8 +669,9 @@ def run_extra(**kw):
             res["engines"]["R-T"] = dict(info, what="corpus and one third of the directed seeds, rotating with the seed "
                                                     "(all of them plus generated inputs in the thorough tier): "
                                                     "shipped dylib (guard off), real proc_macro bridge, real wrappers, stable "
-                                                    "rustc --emit=metadata; verdict only on macro panics and message-less "
-                                                    "compile_error!; nothing stubbed")
+                                                    "rustc --emit=metadata; verdict only on macro panics, message-less "
+                                                    "compile_error! and `proc-macro derive produced unparsable tokens`; "
+                                                    "nothing stubbed")
             res["classes"] += classes
             res["evaluations"] += ev
             res["engines"]["M"] = {"ran": False, "why": "thorough tier only (Miri costs ~10 s CPU per expansion)"}
